@@ -3,12 +3,12 @@
 (* stimulus generation.                                                     *)
 EXTENDS Replication, TLC
 
-CONSTANTS MaxMsgs, MaxElect, MaxCrash, MaxIsrOps, MaxRejects, Policies, UseCheckpoint, IgnoreTaints, Batch, MaxPause
-VARIABLES last, nMsgs, nElect, nCrash, nIsr, nRej, nPause
-mcvars == <<vars, last, nMsgs, nElect, nCrash, nIsr, nRej, nPause>>
-budget == <<nMsgs, nElect, nCrash, nIsr, nRej, nPause>>
+CONSTANTS MaxMsgs, MaxElect, MaxCrash, MaxIsrOps, MaxRejects, Policies, UseCheckpoint, IgnoreTaints, Batch, MaxPause, MaxHold
+VARIABLES last, nMsgs, nElect, nCrash, nIsr, nRej, nPause, nHold
+mcvars == <<vars, last, nMsgs, nElect, nCrash, nIsr, nRej, nPause, nHold>>
+budget == <<nMsgs, nElect, nCrash, nIsr, nRej, nPause, nHold>>
 
-MCInit == Init /\ last = [a |-> "Init"] /\ nMsgs = 0 /\ nElect = 0 /\ nCrash = 0 /\ nIsr = 0 /\ nRej = 0 /\ nPause = 0
+MCInit == Init /\ last = [a |-> "Init"] /\ nMsgs = 0 /\ nElect = 0 /\ nCrash = 0 /\ nIsr = 0 /\ nRej = 0 /\ nPause = 0 /\ nHold = 0
 
 \* one batch of 1..Batch messages with any mix of ack policies; in a batch of more
 \* than one message any member but the first may be too large (rejected)
@@ -19,39 +19,45 @@ MCPublish(pols, bigs) ==
   /\ ~bigs[1] /\ nRej + nb <= MaxRejects
   /\ DoPublish(recs)
   /\ last' = [a |-> "Publish", recs |-> recs]
-  /\ nMsgs' = nMsgs + Len(pols) /\ nRej' = nRej + nb /\ UNCHANGED <<nElect, nCrash, nIsr, nPause>>
+  /\ nMsgs' = nMsgs + Len(pols) /\ nRej' = nRej + nb /\ UNCHANGED <<nElect, nCrash, nIsr, nPause, nHold>>
 MCReject ==
   /\ nRej < MaxRejects
   /\ DoPublishRejected(100 + nRej)
   /\ last' = [a |-> "PublishRejected", v |-> 100 + nRej]
-  /\ nRej' = nRej + 1 /\ UNCHANGED <<nMsgs, nElect, nCrash, nIsr, nPause>>
+  /\ nRej' = nRej + 1 /\ UNCHANGED <<nMsgs, nElect, nCrash, nIsr, nPause, nHold>>
 MCFetch(f, late) == DoFetch(f, late) /\ last' = [a |-> "Fetch", f |-> f, late |-> late] /\ UNCHANGED budget
 MCFetchLost(f) == nCrash < MaxCrash /\ DoFetchLost(f) /\ last' = [a |-> "FetchLost", f |-> f]
-                  /\ nCrash' = nCrash + 1 /\ UNCHANGED <<nMsgs, nElect, nIsr, nRej, nPause>>
+                  /\ nCrash' = nCrash + 1 /\ UNCHANGED <<nMsgs, nElect, nIsr, nRej, nPause, nHold>>
+\* a round trip cut in two: the response is held on its way (at most MaxHold times per behaviour)
+MCFetchHold(f, late) == nHold < MaxHold /\ DoFetchHold(f, IF late THEN "late" ELSE "early")
+                        /\ last' = [a |-> "FetchHold", f |-> f, late |-> late]
+                        /\ nHold' = nHold + 1 /\ UNCHANGED <<nMsgs, nElect, nCrash, nIsr, nRej, nPause>>
+MCDeliver(f) == DoDeliver(f, TRUE) /\ last' = [a |-> "Deliver", f |-> f] /\ UNCHANGED budget
 MCLagExpire(f) == DoLagExpire(f) /\ last' = [a |-> "LagExpire", f |-> f] /\ UNCHANGED budget
 MCShrink(f) == nIsr < MaxIsrOps /\ DoShrink(f) /\ last' = [a |-> "Shrink", f |-> f]
-               /\ nIsr' = nIsr + 1 /\ UNCHANGED <<nMsgs, nElect, nCrash, nRej, nPause>>
+               /\ nIsr' = nIsr + 1 /\ UNCHANGED <<nMsgs, nElect, nCrash, nRej, nPause, nHold>>
 MCExpand(f) == nIsr < MaxIsrOps /\ DoExpand(f) /\ last' = [a |-> "Expand", f |-> f]
-               /\ nIsr' = nIsr + 1 /\ UNCHANGED <<nMsgs, nElect, nCrash, nRej, nPause>>
+               /\ nIsr' = nIsr + 1 /\ UNCHANGED <<nMsgs, nElect, nCrash, nRej, nPause, nHold>>
 MCCheckpoint(r) == UseCheckpoint /\ DoCheckpoint(r) /\ last' = [a |-> "Checkpoint", r |-> r] /\ UNCHANGED budget
 MCCrash(r) == nCrash < MaxCrash /\ DoCrash(r) /\ last' = [a |-> "Crash", r |-> r]
-              /\ nCrash' = nCrash + 1 /\ UNCHANGED <<nMsgs, nElect, nIsr, nRej, nPause>>
+              /\ nCrash' = nCrash + 1 /\ UNCHANGED <<nMsgs, nElect, nIsr, nRej, nPause, nHold>>
 MCRestart(r, reach) == DoRestart(r, reach) /\ last' = [a |-> "Restart", r |-> r, reach |-> reach] /\ UNCHANGED budget
 MCElect(n, reach, lag) == nElect < MaxElect /\ DoElect(n, reach, lag)
                      /\ last' = [a |-> "Elect", n |-> n, reach |-> reach, lag |-> lag]
-                     /\ nElect' = nElect + 1 /\ UNCHANGED <<nMsgs, nCrash, nIsr, nRej, nPause>>
+                     /\ nElect' = nElect + 1 /\ UNCHANGED <<nMsgs, nCrash, nIsr, nRej, nPause, nHold>>
 MCStaleFetch(f) == DoStaleFetch(f) /\ obs.acks = obs.acks /\ last.a # "StaleFetch"
                    /\ last' = [a |-> "StaleFetch", f |-> f] /\ UNCHANGED budget
 MCApplyMeta(f, reach) == DoApplyMeta(f, reach) /\ last' = [a |-> "ApplyMeta", f |-> f, reach |-> reach] /\ UNCHANGED budget
 
 MCPauseResume == nPause < MaxPause /\ DoPauseResume /\ last' = [a |-> "PauseResume"]
-                 /\ nPause' = nPause + 1 /\ UNCHANGED <<nMsgs, nElect, nCrash, nIsr, nRej>>
+                 /\ nPause' = nPause + 1 /\ UNCHANGED <<nMsgs, nElect, nCrash, nIsr, nRej, nHold>>
 
 MCNext ==
   \/ MCPauseResume
   \/ \E n \in 1..Batch : \E pols \in [1..n -> Policies], bigs \in [1..n -> BOOLEAN] : MCPublish(pols, bigs)
   \/ MCReject
-  \/ \E f \in R, late \in BOOLEAN : MCFetch(f, late)
+  \/ \E f \in R, late \in BOOLEAN : MCFetch(f, late) \/ MCFetchHold(f, late)
+  \/ \E f \in R : MCDeliver(f)
   \/ \E f \in R : MCLagExpire(f) \/ MCShrink(f) \/ MCExpand(f) \/ MCCheckpoint(f) \/ MCCrash(f) \/ MCFetchLost(f)
   \/ \E r \in R, reach \in BOOLEAN : MCRestart(r, reach) \/ MCApplyMeta(r, reach)
   \/ \E r \in R, reach \in BOOLEAN, lag \in SUBSET R : MCElect(r, reach, lag)
@@ -92,5 +98,5 @@ NoBadAck_HWFallback == ~(taint = {"hw-fallback"} /\ AckBad)
 NoBadAck_ExpandLagging == ~(taint = {"expand-lagging"} /\ AckBad)
 NoBadAck_StaleIsrOffset == ~(taint = {"stale-isr-offset"} /\ AckBad)
 
-MCView == <<meta, up, role, log, hw, hwDisk, ec, isrOff, pend, caught, committed, nacked, taint, lagging, nMsgs, nElect, nCrash, nIsr, nRej, nPause>>
+MCView == <<meta, up, role, log, hw, hwDisk, ec, isrOff, pend, caught, committed, nacked, taint, lagging, inflight, nMsgs, nElect, nCrash, nIsr, nRej, nPause, nHold>>
 =============================================================================
